@@ -237,14 +237,23 @@ func runC27(c *core.Ctx) {
 		}
 		a := cmp.Common().Args
 		cur := func(v ssa.Value) bool { cl, idx := ir.CallOf(v); return cl != nil && idx == 1 && ir.CalleeIs(cl, gch) }
-		if !(ir.Strip(a[0]) == ir.Strip(sumV) && cur(a[1])) {
-			return false, false
-		}
-		switch b.Op {
-		case token.GTR:
-			return true, true
-		case token.LEQ:
-			return true, false
+		switch {
+		case ir.Strip(a[0]) == ir.Strip(sumV) && cur(a[1]):
+			// new.Cmp(current) > 0
+			switch b.Op {
+			case token.GTR:
+				return true, true
+			case token.LEQ:
+				return true, false
+			}
+		case cur(a[0]) && ir.Strip(a[1]) == ir.Strip(sumV):
+			// the same test asked the other way round: current.Cmp(new) < 0 (Cmp is antisymmetric)
+			switch b.Op {
+			case token.LSS:
+				return true, true
+			case token.GEQ:
+				return true, false
+			}
 		}
 		return false, false
 	}), ir.CallSinks(rcCalls, "RestructChain"), "RestructChain", nil)
@@ -281,6 +290,14 @@ func runC27(c *core.Ctx) {
 		if next == nil {
 			c.Broken("C27.fresh-head", fn, "instruction after canonical mutation", c.P.Rel(m.Pos()), "not found")
 			continue
+		}
+		// a mutation helper that reads the current head itself, before its own mutations, is fresh by construction
+		if h := m.Common().StaticCallee(); h != nil && h.Pkg == fn.Pkg && !ir.CalleeIs(m, ah) && !ir.CalleeIs(m, rc) {
+			inner := append(ir.CallsTo(h, ah), ir.CallsTo(h, rc)...)
+			if len(inner) > 0 && len(ir.CallsTo(h, gch)) > 0 {
+				eng.MustPassCall(c, "C27.fresh-head", h, "GetCurrentHeader", eng.CallPred(gch), ir.CallSinks(inner, "canonical mutation"), "canonical mutation (head read inside the mutation helper)", nil)
+				continue
+			}
 		}
 		name := "canonical mutation following " + ir.CalleeObj(m).Name() + " (same transaction)"
 		eng.MustPassCall(c, "C27.fresh-head", fn, "GetCurrentHeader", eng.CallPred(gch), ir.CallSinks(muts, name), name, &eng.Opt{Start: next})
